@@ -63,6 +63,7 @@ def parse_kernel(path):
         elif k == 'models': tags['models'] += rest.split()
         elif k == 'unity': tags['unity'] += rest.split()
         elif k == 'stub': tags['stubs'].append(rest.split())
+        elif k == 'probe': tags['stubs'].append([rest.split()[0], '+' + rest.split()[1]])  # '+': call TARGET() on entry, then the real function
         elif k == 'noubsan': tags['noubsan'] = True
         elif k == 'keep_extern_templates': tags['exttempl'] = False
         elif k == 'property': tags['property'] = rest
@@ -149,7 +150,8 @@ def worker(job):
     t0 = time.time()
     ex = irsym.Exec(mods, lim, params, None, [t for t in opts.get('throws', '').split(',') if t], opts.get('leak') == '1')
     ex.known = known
-    ex.redirects = [(re.compile(a), b) for a, b in stubs]
+    ex.redirects = [(re.compile(a), b) for a, b in stubs if not b.startswith('+')]
+    ex.probes = [(re.compile(a), b[1:]) for a, b in stubs if b.startswith('+')]
     r = {'harness': name, 'params': params}
     try:
         if name not in ex.fn_of: raise irsym.Inconclusive('harness %s not found in IR' % name)
